@@ -112,7 +112,8 @@ func coerceInt(value interface{}) interface{} {
 		}
 		return coerceInt(*value)
 	case float32:
-		if value < float32(math.MinInt32) || value > float32(math.MaxInt32) {
+		if value != value || value < float32(math.MinInt32) || value > float32(math.MaxInt32) {
+			// NaN or outside 32 bits
 			return nil
 		}
 		return int(value)
@@ -122,7 +123,7 @@ func coerceInt(value interface{}) interface{} {
 		}
 		return coerceInt(*value)
 	case float64:
-		if value < float64(math.MinInt32) || value > float64(math.MaxInt32) {
+		if math.IsNaN(value) || value < float64(math.MinInt32) || value > float64(math.MaxInt32) {
 			return nil
 		}
 		return int(value)
